@@ -130,6 +130,18 @@ def run(case):
             exp, kind = W.expected_column(world, inds, name, convert_units=convert, cleaned=case['cleaned'])
             if exp is None or kind in ('unmodelled', 'empty'):
                 continue
+            if kind == 'exact-int':
+                # 64-bit integer columns: compared as integers (a detour through float64 loses ids beyond 2**53)
+                raw = np.asarray(t[name])
+                gl = [int(x) for x in raw.ravel()]
+                if raw.dtype.kind not in 'iu' or gl != [int(x) for x in exp.ravel()]:
+                    i = next((k for k, (a, b) in enumerate(zip(gl, exp.ravel())) if a != int(b)), 0)
+                    violation(out, 'value-changed', 'halos[%s]' % _family(name),
+                              {'column': name, 'row': i, 'got': str(gl[i]) if gl else None, 'expected': str(int(exp.ravel()[i])) if len(exp) else None,
+                               'dtype': str(raw.dtype), 'convert_units': convert})
+                    return out
+                checked += 1
+                continue
             got = np.asarray(t[name], dtype=np.float64)
             if got.shape != exp.shape:
                 violation(out, 'bad-shape', 'halos[%s]' % _family(name), '%s vs %s' % (got.shape, exp.shape))
